@@ -18,6 +18,7 @@ structure LoopP where
   width : Nat      -- bytes examined per iteration
   step : Nat       -- `ADDQ $step, DI`
   lastOff : Nat    -- `LEAQ -lastOff(SI)(BX*1), …`: the last block starts at `len - lastOff`
+  deriving DecidableEq
 
 def LoopP.ok (P : LoopP) : Prop := P.step = P.width ∧ P.lastOff = P.width ∧ 1 ≤ P.width
 
